@@ -117,7 +117,7 @@ def make_expression_grammar(g: Grammar, gx):
 
     # 6.5.5-6.5.14 (ten left-recursive levels) == cast-expression (binop cast-expression)* with the level fold
     g.nt("binary-expression", "_parse_binary_expression", covers=EXPR_CHAIN[3:])
-    g.prod("binary-expression", [N("cast-expression"), Star(N("binary-operator"), N("cast-expression"))],
+    g.prod("binary-expression", [N("cast-expression"), Star(N("binary-operator"), N("cast-expression"), reps=3)],
            build=lambda v, gx: c_binary_tree(A, [v[0]] + [r[1] for r in v[1]], [r[0].value for r in v[1]]),
            label="multiplicative ... logical-OR expressions (6.5.5-6.5.14)")
     g.nt("binary-operator", opaque=tokval)
@@ -429,6 +429,19 @@ def add_value_variants(g, gx):
         sp["type"] = [A.Typename(None, ["const", "_Atomic"], None, inner, co(m))]
         return sp
 
+    def spec_atomic_plain(m):
+        # `_Atomic(int)`: as the real type-name parser builds it, the abstract TypeDecl inside has no coordinate
+        sp = new_spec()
+        sp["type"] = [A.Typename(None, ["_Atomic"], None, A.TypeDecl(None, [], None, A.IdentifierType(["int"], co(m)), None), co(m))]
+        return sp
+
+    def spec_atomic_array(m):
+        # `_Atomic(int[3])` (a constraint violation in C, but the parser must not fail with anything but ParseError)
+        sp = new_spec()
+        arr = A.ArrayDecl(A.TypeDecl(None, [], None, A.IdentifierType(["int"], co(m)), None), A.Constant("int", "3", co(m)), [], co(m))
+        sp["type"] = [A.Typename(None, ["_Atomic"], None, arr, co(m))]
+        return sp
+
     def spec_two(m):
         sp = new_spec()
         sp["type"] = [A.IdentifierType(["unsigned"], co(m)), A.IdentifierType(["long"], co(m))]
@@ -442,7 +455,39 @@ def add_value_variants(g, gx):
         return sp
     g.nts["declaration-specifiers"].value_variants = [lambda gx, m: (spec_int(m), True, co(m)), lambda gx, m: (spec_typedef(m), True, co(m)),
                                                       lambda gx, m: (spec_atomic(m), True, co(m)), lambda gx, m: (spec_two(m), True, co(m)),
-                                                      lambda gx, m: (spec_extern(m), True, co(m))]
+                                                      lambda gx, m: (spec_extern(m), True, co(m)),
+                                                      lambda gx, m: (spec_atomic_plain(m), True, co(m)),
+                                                      lambda gx, m: (spec_atomic_array(m), True, co(m))]
+    # declarators: a plain name / a pointer to it (Decl.coord then differs from the coordinate of the name)
+    def ptr_info(m):
+        return dict(decl=A.PtrDecl(["const"], A.TypeDecl(f"d{m.mid}", None, None, None, co(m)), gx.Coord("f.c", 950 + m.mid, 1)),
+                    init=None, bitsize=None)
+    # K&R function definitions: an identifier-list declarator `f(kr_a, kr_b)` and a declaration list that declares the same
+    # names in the OTHER order (6.9.1: the declarations stay in source order in FuncDef.param_decls)
+    def kr_declarator(m):
+        fd = A.FuncDecl(A.ParamList([A.ID("kr_a", co(m)), A.ID("kr_b", co(m))], co(m)), None, co(m))
+        fd.type = A.TypeDecl(f"d{m.mid}", None, None, None, co(m))
+        return fd
+
+    def kr_declarations(m):
+        def one(n, ty):
+            return A.Decl(n, [], [], [], [], A.TypeDecl(n, [], None, A.IdentifierType([ty], co(m)), co(m)), None, None, co(m))
+        return [one("kr_b", "char"), one("kr_a", "int")]
+    for nt in ("declarator[id]", "declarator"):
+        if nt in g.nts:
+            g.nts[nt].value_variants = [g.nts[nt].opaque, lambda gx, m: kr_declarator(m)]
+    g.nts["declaration-list"].value_variants = [g.nts["declaration-list"].opaque, lambda gx, m: kr_declarations(m)]
+    from spec.grammar_decl import append_mods
+    g.nts["declarator-suffixes"].value_variants = [
+        g.nts["declarator-suffixes"].opaque,
+        lambda gx, m: (lambda d: append_mods(A, d, A.FuncDecl(A.ParamList([A.ID("kr_a", co(m)), A.ID("kr_b", co(m))], co(m)), None, co(m))))]
+    for nt in ("identifier-list", "identifier-list-opt"):
+        if nt in g.nts:
+            g.nts[nt].value_variants = [g.nts[nt].opaque, lambda gx, m: A.ParamList([A.ID("kr_a", co(m)), A.ID("kr_b", co(m))], co(m))]
+    for nt in ("init-declarator", "struct-declarator"):
+        g.nts[nt].value_variants = [g.nts[nt].opaque, lambda gx, m: ptr_info(m)]
+    for nt in ("init-declarator-list", "struct-declarator-list"):
+        g.nts[nt].value_variants = [g.nts[nt].opaque, lambda gx, m: [ptr_info(m)]]
 
     def params(m):
         def named(n):
@@ -456,4 +501,5 @@ def add_value_variants(g, gx):
         sp["alignment"] = [A.Alignas(A.Constant("int", "8", co(m)), co(m))]
         return sp
     g.nts["specifier-qualifier-list"].value_variants = [lambda gx, m: spec_int(m), lambda gx, m: spec_atomic(m), lambda gx, m: spec_two(m),
-                                                        lambda gx, m: spec_align_only(m)]
+                                                        lambda gx, m: spec_align_only(m), lambda gx, m: spec_atomic_plain(m),
+                                                        lambda gx, m: spec_atomic_array(m)]
